@@ -241,4 +241,99 @@ func factsBlock() {
 	// ---- C35: lazyOverlapChecker.sync skips directories without meta.json
 	emitStr("shipperCheckerSkipsPartial", "pkg/shipper/shipper.go lazyOverlapChecker.sync: the condition under which a failed DownloadMeta is skipped",
 		firstIfCond(body(fn(sf, "lazyOverlapChecker", "sync")), "IsObjNotFoundErr"))
+
+	// ---- C33: what makes a metadata sync fail, and what Compact does then
+	fm := body(fn(ff, "BaseFetcher", "fetchMetadata"))
+	var cases []string
+	if fm != nil {
+		ast.Inspect(fm, func(n ast.Node) bool {
+			sw, ok := n.(*ast.SwitchStmt)
+			if !ok || !strings.Contains(text(sw.Tag), "errors.Cause(err)") {
+				return true
+			}
+			for _, st := range sw.Body.List {
+				cc := st.(*ast.CaseClause)
+				label := "default"
+				if len(cc.List) > 0 {
+					var xs []string
+					for _, e := range cc.List {
+						xs = append(xs, text(e))
+					}
+					label = strings.Join(xs, ",")
+				}
+				what := "partial"
+				for _, b := range cc.Body {
+					if strings.Contains(text(b), "metaErrs.Add") {
+						what = "metaErrs"
+					}
+				}
+				cases = append(cases, label+":"+what)
+			}
+			return false
+		})
+	}
+	emitList("fetchMetaErrCases", "pkg/block/fetcher.go fetchMetadata(): how the cause of a loadMeta error is classified", cases)
+	emitStr("fetchIncompleteCond", "pkg/block/fetcher.go fetch(): when the view is reported incomplete",
+		firstIfCond(body(fn(ff, "BaseFetcher", "fetch")), "metaErrs"))
+	lm := body(fn(ff, "BaseFetcher", "loadMeta"))
+	emitList("loadMetaConds", "pkg/block/fetcher.go loadMeta(): not-found test and version test",
+		[]string{firstIfCond(lm, "IsObjNotFoundErr"), firstIfCond(lm, "m.Version")})
+	emitList("deletionFilterTolerated", "pkg/block/fetcher.go IgnoreDeletionMarkFilter.Filter: marker read errors that are not failures",
+		allIfConds(body(fn(ff, "IgnoreDeletionMarkFilter", "Filter")), "errors.Cause(err) =="))
+	cpf := parse("pkg/compact/compact.go")
+	emitList("noCompactFilterTolerated", "pkg/compact/compact.go GatherNoCompactionMarkFilter.Filter: marker read errors that are not failures",
+		allIfConds(body(fn(cpf, "GatherNoCompactionMarkFilter", "Filter")), "errors.Cause(err) =="))
+	cb := body(fn(cpf, "BucketCompactor", "Compact"))
+	emitList("compactCallOrder", "pkg/compact/compact.go BucketCompactor.Compact: sync, then cleaning, garbage collection, grouping",
+		callSeq(cb, "c.sy.SyncMetas", "c.blocksCleaner.DeleteMarkedBlocks", "c.sy.GarbageCollect", "c.grouper.Groups"))
+	emitStr("compactSyncErrAction", "pkg/compact/compact.go BucketCompactor.Compact: what happens when SyncMetas fails", ifInitAction(cb, "c.sy.SyncMetas"))
+	emitStr("syncMetasErrAction", "pkg/compact/compact.go Syncer.SyncMetas: what happens when Fetch fails",
+		ifCondAction(body(fn(cpf, "Syncer", "SyncMetas")), "err != nil"))
+}
+
+// allIfConds lists the texts of all if-conditions in body that contain substr, in source order.
+func allIfConds(body ast.Node, substr string) []string {
+	var r []string
+	if body == nil {
+		return r
+	}
+	ast.Inspect(body, func(n ast.Node) bool {
+		if s, ok := n.(*ast.IfStmt); ok {
+			if t := text(s.Cond); strings.Contains(t, substr) {
+				r = append(r, t)
+			}
+		}
+		return true
+	})
+	return r
+}
+
+// ifInitAction: for the first `if <init containing substr>; cond { first statement }` the text "cond => first statement".
+func ifInitAction(body ast.Node, substr string) string {
+	res := "unknown"
+	if body == nil {
+		return res
+	}
+	ast.Inspect(body, func(n ast.Node) bool {
+		if s, ok := n.(*ast.IfStmt); ok && res == "unknown" && s.Init != nil && strings.Contains(text(s.Init), substr) && len(s.Body.List) > 0 {
+			res = text(s.Cond) + " => " + text(s.Body.List[0])
+		}
+		return true
+	})
+	return res
+}
+
+// ifCondAction: for the first `if cond { first statement }` whose condition is exactly cond.
+func ifCondAction(body ast.Node, cond string) string {
+	res := "unknown"
+	if body == nil {
+		return res
+	}
+	ast.Inspect(body, func(n ast.Node) bool {
+		if s, ok := n.(*ast.IfStmt); ok && res == "unknown" && s.Init == nil && text(s.Cond) == cond && len(s.Body.List) > 0 {
+			res = text(s.Cond) + " => " + text(s.Body.List[0])
+		}
+		return true
+	})
+	return res
 }
